@@ -110,6 +110,16 @@ def comb_comb(r1=(1, 1), r2=(1, 2), piat=(6, 6, 6), iat_a=(2, 2, 2), iat_b=(1, 1
     return {"Q": Q, "T": T, "family": "combiner-combiner", "expect": "valid", "drains": False, "nodes": nodes, "edges": edges}
 
 
+def comb_fanout(recipe=(1, 1), piat=(2, 2, 2, 2, 2, 2), iiat=(1,) * 8, cpd=(1,), cb=False, pout="FIRST_AVAILABLE", caps=(2, 3, 1, 6), mpd=(9,), T=200):
+    """a combiner with two out-edges: the first one small and drained by a slow machine, the second one roomy"""
+    nodes = [_n("source", blocking=True, iat=list(piat), kind="pallet"), _n("source", blocking=True, iat=list(iiat)),
+             _n("combiner", recipe=list(recipe), pd=list(cpd), blocking=cb, policy_out=pout),
+             _n("machine", pd=list(mpd)), _n("sink"), _n("sink")]
+    edges = [_e("buffer", 0, 2, cap=caps[0]), _e("buffer", 1, 2, cap=caps[1]),
+             _e("buffer", 2, 3, cap=caps[2]), _e("buffer", 2, 5, cap=caps[3]), _e("buffer", 3, 4, cap=2)]
+    return {"Q": Q, "T": T, "family": "combiner-fan-out", "expect": "valid", "drains": False, "nodes": nodes, "edges": edges}
+
+
 def pallet_split(mode="LIFO", piat=(1, 1, 1, 1, 1, 1), spd=(4,), cap=4, spb=True, T=160, spin="FIRST_AVAILABLE", delay=0,
                  out_cap=3, out_delay=0, spout="FIRST_AVAILABLE"):
     """pallet source -> buffer (LIFO/FIFO) -> splitter -> buffer -> sink: the splitter reserves the next pallet
@@ -286,6 +296,10 @@ def families(tier):
         C.append(fleet_mid(pout=pout, pin2=pin2, iat1=(4,) * 12, iat2=(4,) * 12, pd=(2,), pd2=(4,), fcap=3, fdelay=8, transit=1, T=200))
         C.append(fleet_mid(pout=pout, pin2=pin2, iat1=(4,) * 12, iat2=(4,) * 12, pd=(2,), pd2=(4,), fcap=2, fdelay=12, transit=2, T=200))
         C.append(fleet_mid(pout=pout, pin2=pin2, wc=3, iat1=(1,) * 10, iat2=(1,) * 10, pd=(3,), fcap=4, fdelay=12, transit=2, pd2=(2,)))
+    for cb, pout in itertools.product([False, True], ["FIRST_AVAILABLE", "ROUND_ROBIN", 1, 0]):
+        C.append(comb_fanout(cb=cb, pout=pout))
+    C.append(comb_fanout(cb=False, pout="FIRST_AVAILABLE", caps=(2, 3, 1, 1), mpd=(7,)))        # both out-edges congested at times
+    C.append(comb_fanout(cb=True, pout="FIRST_AVAILABLE", caps=(2, 3, 1, 1), mpd=(7,), recipe=(1, 2)))
     for r1, r2, split in [((1, 1), (1, 2), True), ((1, 2), (1, 1), True), ((1, 1), (1, 2), False), ((1, 3), (1, 3), True)]:
         C.append(comb_comb(r1=r1, r2=r2, split=split, iat_a=(2,) * (3 * r1[1]), iat_b=(1,) * (3 * r2[1])))
     for mode, spin, delay in itertools.product(["LIFO", "FIFO"], ["FIRST_AVAILABLE", "ROUND_ROBIN", 0], [0, 2]):
